@@ -99,9 +99,11 @@ func NewConfig(prop string, tier string, r *core.Rand) Config {
 		c.Followers = 0
 		c.CrashEnum = 2
 		c.Blocks = r.Range(8, 16)
+		c.CrashAgain = r.Chance(0.3)
 		if tier == "thorough" {
 			c.CrashEnum = 6
 			c.Blocks = r.Range(8, 14)
+			c.CrashAgain = r.Chance(0.6)
 		}
 	case "C09":
 		c.PGarbage = 0.3
@@ -167,6 +169,9 @@ func NewConfig(prop string, tier string, r *core.Rand) Config {
 		c.Followers = r.Intn(2)
 		c.QueryMean = 0.3
 		c.Noisy = c.Followers > 0
+	}
+	if (prop == "C01" || prop == "C07" || prop == "C10" || prop == "C04") && r.Chance(0.3) {
+		c.PCrash = 0.05
 	}
 	// swarm: in some worlds of any property the block producer itself serves mempool/query traffic
 	// (then differences show up against the model with precise attribution) next to a quiet follower
@@ -849,17 +854,24 @@ func (g *Generator) NextBlock(h int64) BlockStep {
 	}
 	if g.enumLeft > 0 && h >= 4 && (nt > 0 || g.r.Chance(0.3)) && g.r.Chance(0.5) {
 		g.enumLeft--
+		replayPts := []string{"bb", "eb", "commit.pre", "commit.post", "cw:13"}
+		if npl > 0 {
+			replayPts = append(replayPts, "tx:0")
+		}
 		for _, pt := range points {
-			st.Faults = append(st.Faults, Fault{Kind: "crashfork", Replica: 0, At: pt, Follow: 2})
+			f := Fault{Kind: "crashfork", Replica: 0, At: pt, Follow: 2}
+			if g.c.CrashAgain && pt != "commit.post" && pt != "mp.update" && pt != "end" && g.r.Chance(0.5) {
+				// the interrupted block will be replayed on recovery: crash again inside that replay
+				f.Again = replayPts[g.r.Intn(len(replayPts))]
+			}
+			st.Faults = append(st.Faults, f)
 		}
 		for k := 1; k <= 16; k++ {
 			st.Faults = append(st.Faults, Fault{Kind: "crashfork", Replica: 0, At: fmt.Sprintf("cw:%d", k), Follow: 2})
 		}
 	} else if c.PCrash > 0 && g.r.Chance(c.PCrash) {
+		// a crash at an ABCI boundary of some replica (the points inside Commit are C08's enumeration)
 		pt := points[g.r.Intn(len(points))]
-		if g.r.Chance(0.4) {
-			pt = fmt.Sprintf("cw:%d", g.r.Range(1, 13))
-		}
 		st.Faults = append(st.Faults, Fault{Kind: "crashfork", Replica: g.r.Intn(len(w.Reps)), At: pt, Follow: 3})
 	}
 	return st
